@@ -41,9 +41,19 @@ func allocInit(a *ssa.Alloc) ssa.Value {
 	return nil
 }
 
+// symOverride binds values to a fixed rendering while a callee is explored
+// inline (its parameters are rendered as the caller's arguments, the call's
+// results as what the callee returned). Managed by SuccessSeqs only.
+var symOverride = map[ssa.Value]string{}
+
 func sym(v ssa.Value, d int) string {
 	if d > 12 {
 		return "…"
+	}
+	if len(symOverride) > 0 {
+		if s, ok := symOverride[v]; ok {
+			return s
+		}
 	}
 	switch x := v.(type) {
 	case *ssa.Parameter:
